@@ -17,7 +17,18 @@ class Context:
         self._progs = {}
         self._cgs = {}
 
+    def _map(self, variant):
+        """VERIF_VARIANT=<name> re-targets every request for the as-configured build to another build
+        variant (used by the thorough tier to repeat a check under non-default configurations)"""
+        want = os.environ.get('VERIF_VARIANT')
+        if want and variant is facts.AS_CONFIGURED:
+            for v in (facts.TS_OFF, facts.FILTERING_OFF, facts.CONFIGFILE_OFF):
+                if v.name == want:
+                    return v
+        return variant
+
     def program(self, variant=facts.AS_CONFIGURED, scope='lib'):
+        variant = self._map(variant)
         key = (variant.name, scope)
         if key not in self._progs:
             p = facts.load_program(self.bm, self.ws, variant, scope)
@@ -27,6 +38,7 @@ class Context:
         return self._progs[key]
 
     def callgraph(self, variant=facts.AS_CONFIGURED, scope='lib'):
+        variant = self._map(variant)
         key = (variant.name, scope)
         if key not in self._cgs:
             self._cgs[key] = CallGraph(self.program(variant, scope))
